@@ -24,6 +24,8 @@ from .edl import build_engine, feq
 from .tlc import MachineryError
 from .xreal import to_float
 
+from .xreal import NAN  # noqa: E402
+
 
 def compositions(n):
     if n == 0:
@@ -181,6 +183,18 @@ def run(ctx: core.Ctx):
         for h in range(nh):
             L = rng.choice([3, 4]) if h else 8
             cases.append({"engine": E, "rows": [rng.choice(pool) for _ in range(L)]})
+        # rows with a missing (NaN) input next to complete rows in one batch: a shortcut taken for a whole batch at once
+        # (an operand that is zero / NaN on every row) is not taken when the rows are processed one at a time
+        finite = [r for r in pool if all(x[0] == 0 for x in r)]
+        if finite and E["inputs"]:
+            for h in range(3 if ctx.quick else 8):
+                rows = []
+                for j in range(4):
+                    r = [list(x) for x in rng.choice(finite)]
+                    if j % 2 == 0:
+                        r[(h + j // 2) % len(r)] = list(NAN)
+                    rows.append(r)
+                cases.append({"engine": E, "rows": rows})
     exp = engine_run.evaluate(ctx, cases, "c02")
     for ci, case in enumerate(cases):
         expected = {k: v for (c, k), v in exp.items() if c == ci}
